@@ -34,7 +34,54 @@ def in_comment_map(lines):
         if "/*" in l and "*/" not in l: inc = True
         if "*/" in l: inc = False
     return m
+def run_one(f, li, new, outf, opname):
+    """apply `new` as line li (0-based) of file f on a scratch copy, run the quick checks of the file's properties"""
+    src = open(os.path.join(REPO, "m4ri", f)).read().split("\n")
+    line = src[li]
+    d = tempfile.mkdtemp(prefix="am.", dir="/tmp")
+    try:
+        shutil.copytree(os.path.join(REPO, "m4ri"), os.path.join(d, "m4ri"), ignore=shutil.ignore_patterns("*.o", "*.lo", ".libs", ".deps"))
+        src2 = list(src); src2[li] = new
+        open(os.path.join(d, "m4ri", f), "w").write("\n".join(src2))
+        verdict = "survived"; by = "-"; detail = ""
+        for p in FILEPROPS[f]:
+            env = dict(os.environ, VERIF_REPO=d, VERIF_EVIDENCE_DIR=os.path.join(d, "ev"))
+            r = subprocess.run([sys.executable, os.path.join(ROOT, "verif.py"), "check", p, "--tier", "quick"], env=env, stdout=subprocess.PIPE, stderr=subprocess.STDOUT, text=True)
+            if r.returncode == 1:
+                verdict = "killed"; by = p
+                ks = [x.strip() for x in r.stdout.splitlines() if x.strip().startswith("key=")]
+                detail = ks[0][:110] if ks else ""
+                break
+            if r.returncode != 0:
+                verdict = "inconclusive"; by = p; detail = r.stdout.strip().splitlines()[-1][:150] if r.stdout.strip() else ""
+                break
+        outf.write("%s\t%s\t%s:%d\t%s -> %s\t%s\t%s\n" % (verdict, by, f, li + 1, line.strip()[:90], new.strip()[:90], opname, detail))
+        outf.flush()
+    finally:
+        shutil.rmtree(d, ignore_errors=True)
+
+def replay(infile, out):
+    """re-run the non-killed mutants recorded in an earlier result file against the current checks"""
+    outf = open(out, "a")
+    for l in open(infile):
+        parts = l.rstrip("\n").split("\t")
+        if len(parts) < 5 or parts[0] == "killed":
+            continue
+        f, ln = parts[2].rsplit(":", 1)
+        li = int(ln) - 1
+        old, new = parts[3].split(" -> ", 1)
+        src = open(os.path.join(REPO, "m4ri", f)).read().split("\n")
+        if src[li].strip()[:90] != old:
+            outf.write("skipped\t-\t%s\tline changed\n" % parts[2]); continue
+        indent = src[li][:len(src[li]) - len(src[li].lstrip())]
+        if len(src[li].strip()) > 90:
+            outf.write("skipped\t-\t%s\tline truncated in the record\n" % parts[2]); continue
+        run_one(f, li, indent + new, outf, parts[4])
+    outf.write("DONE replay\n")
+
 def main():
+    if sys.argv[1] == "replay":
+        return replay(sys.argv[2], sys.argv[3])
     n, seed, out = int(sys.argv[1]), int(sys.argv[2]), sys.argv[3]
     filt = sys.argv[4] if len(sys.argv) > 4 else None
     rnd = random.Random(seed)
